@@ -148,7 +148,16 @@ pub fn main_gen(args: &[String]) {
             if seal & 2 != 0 { b.add_message_integrity(&c, IntegrityAlgorithm::Sha256).unwrap(); }
             if seal & 4 != 0 { b.add_fingerprint().unwrap(); }
             lib_len = Some(b.byte_len());
-            b.build()
+            if rng.gen_bool(0.5) {
+                b.build()
+            } else {
+                // the other serialisation entry point, into a buffer that held something else before
+                let mut v = vec![0xa5u8; b.byte_len()];
+                match b.write_into(&mut v) {
+                    Ok(n) => { v.truncate(n); v }
+                    Err(_) => b.build(),
+                }
+            }
         };
         // alternative credentials: another password, short-vs-long, long-term differing in one component
         let mut others = vec![];
